@@ -151,6 +151,10 @@ func main() {
 			runDups(atoi(a[1]), os.Stdout)
 			return
 		}
+		if len(a) == 3 && a[0] == "downs" {
+			os.Stdout.WriteString(runDowns(atoi(a[1])))
+			return
+		}
 		if len(a) != 3 || a[2] == "-" {
 			os.Stdout.WriteString("BAD-CASE")
 			return
